@@ -27,7 +27,7 @@ def _same_case(draw, tier):
     if cfg["wrapper"] == "path":
         cfg["wrapper"] = "interval"       # BrownianPath takes no entropy argument
         cfg["cache_size"] = None
-    ops = draw(history.op_lists(cfg, min_ops=2, max_ops=14, max_sweep=60))
+    ops = draw(history.op_lists(cfg, min_ops=2, max_ops=14, max_sweep=60, allow_point=True))
     return {"kind": "same", "cfg": cfg, "ops": ops}
 
 
@@ -40,9 +40,9 @@ def _dyadic_case(draw, tier):
         if not cfg["tol"] > 0:
             cfg["tol"] = draw(st.sampled_from([1e-2, 1e-3, 1e-6]))
             cfg["grid"] = draw(st.sampled_from([g for g in (100, 1000, 10 ** 6) if g <= round(1 / cfg["tol"])]))
-    ops_a = draw(history.op_lists(cfg, min_ops=1, max_ops=10, max_sweep=30))
-    ops_b = draw(history.op_lists(cfg, min_ops=0, max_ops=10, max_sweep=30))
-    targets = draw(history.op_lists(cfg, min_ops=1, max_ops=5, max_sweep=6))
+    ops_a = draw(history.op_lists(cfg, min_ops=1, max_ops=10, max_sweep=30, allow_point=True))
+    ops_b = draw(history.op_lists(cfg, min_ops=0, max_ops=10, max_sweep=30, allow_point=True))
+    targets = draw(history.op_lists(cfg, min_ops=1, max_ops=5, max_sweep=6, allow_point=True))
     cache_b = draw(st.sampled_from([0, 1, 5, 45, None])) if cfg["wrapper"] == "interval" else 45
     return {"kind": "dyadic", "cfg": cfg, "ops_a": ops_a, "ops_b": ops_b, "targets": targets, "cache_b": cache_b}
 
@@ -87,7 +87,7 @@ def run_case(case):
     if kind == "dyadic":
         qa = history.expand({"cfg": cfg, "ops": case["ops_a"]})
         qb = history.expand({"cfg": cfg, "ops": case["ops_b"]})
-        targets = [t for t in history.expand({"cfg": cfg, "ops": case["targets"]}) if t[0] < t[1]]
+        targets = [t for t in history.expand({"cfg": cfg, "ops": case["targets"]}) if t[0] is None or t[0] < t[1]]
         cfg_b = dict(cfg)
         cfg_b["cache_size"] = case["cache_b"] if cfg["wrapper"] == "interval" else cfg["cache_size"]
         bm1, i1, _ = history.build(cfg, torchsde, torch)
@@ -107,18 +107,19 @@ def run_case(case):
                         f"dyadic_history_dependence:{name}",
                         f"dyadic mode: {name}{(a, b)} depends on the earlier queries ({len(qa)} vs {len(qb)} prior "
                         f"queries)", sig))
-            pieces = brownian_tools.leaves_covering(i1, a, b)
+            pieces = brownian_tools.leaves_covering(i1, cfg["t0"] if a is None else a, b)
             if pieces and len(pieces) > 1:
                 multi = True
         sa, sb = set(qa), set(qb)
-        diff = [q for q in (sa ^ sb) if any(q[0] < t[1] and t[0] < q[1] for t in targets)]
+        lo = lambda q: cfg["t0"] if q[0] is None else q[0]     # noqa: E731
+        diff = [q for q in (sa ^ sb) if any(lo(q) < t[1] and lo(t) < q[1] for t in targets)]
         if multi:
             labels.append("multi_piece_target")
         labels.append(f"cache_b={case['cache_b']}")
         return Result(nontrivial=len(diff) >= 5 and len(cfg["shape"]) >= 1 and multi and bool(targets), labels=labels,
                       checks=checks, metrics={"differing_prior_queries": len(diff)})
     # entropy
-    q = [t for t in history.expand(case) if t[0] < t[1]]
+    q = [t for t in history.expand(case) if t[0] is not None and t[0] < t[1]]
     cfg2 = dict(cfg)
     cfg2["entropy"] = case["other"] if case["other"] != cfg["entropy"] else cfg["entropy"] + 1
     bm1, _, _ = history.build(cfg, torchsde, torch)
